@@ -205,15 +205,22 @@ Definition rt_dom (r n : row) (u : Q) : Prop :=
 
 (* side conditions of the generic round-trip lemma, computed row by row on the regenerated table *)
 Definition eps_rt : Q := 4 * ns.
+(* conditions on the row alone *)
+Definition row_self_ok (r : row) : bool :=
+  let b := r_fac r / day in
+  Qle_bool 0 (r_fac r) && Qle_bool (r_fac r) day &&
+  Qle_bool 0 (delta_d r (r_start r)) &&                       (* TAI-UTC >= 0 on the row *)
+  Qlt_b (r_start r) (r_end r) &&
+  Qle_bool (b * dmax r) (guard r) &&                          (* provisional UTC does not leave the row at its start *)
+  Qle_bool (b * (b * dmax r)) eps_rt.
+
+(* conditions on a row and its successor *)
 Definition row_rt_ok (r n : row) : bool :=
   let b := r_fac r / day in
-  Qle_bool 0 (r_fac r) && Qle_bool 0 (r_fac n) &&
-  Qle_bool 0 (delta_d r (r_start r)) &&                       (* TAI-UTC >= 0 on the row *)
-  Qlt_b (r_start r) (r_end r) && Qle_bool (r_end r) (r_start n) && Qle_bool (r_start n) (r_end r) &&
+  row_self_ok r && Qle_bool 0 (r_fac n) &&
+  Qle_bool (r_end r) (r_start n) && Qle_bool (r_start n) (r_end r) &&
   Qlt_b (r_end r + dmax r) (r_end n) &&                       (* the TAI label stays inside the successor *)
-  Qle_bool (b * dmax r) (guard r) &&                          (* provisional UTC does not leave the row at its start *)
-  Qle_bool (jump_hi r n + b * dmax r + dmax r) (r_end r - r_start r) &&   (* ... nor when TAI is in the successor *)
-  Qle_bool (b * (b * dmax r)) eps_rt &&
+  Qle_bool (jump_hi r n + b * dmax r + dmax r) (r_end r - r_start r) &&   (* provisional UTC stays in the row when TAI is in the successor *)
   Qle_bool (b * (jump_hi r n + b * dmax r)) eps_rt &&
   Qle_bool (b * (- jump_lo r n)) eps_rt &&
   (negb (is_const r) || (is_const n && Qle_bool 0 (jump_lo r n))).   (* leap rows: followed by leap rows, steps up *)
@@ -224,11 +231,8 @@ Fixpoint pairs_ok (l : list row) : bool :=
   | _ => true
   end.
 
-Fixpoint succ_of (l : list row) (r : row) : option row :=
-  match l with
-  | a :: ((n :: _) as t) => if Qeq_bool (r_start a) (r_start r) then Some n else succ_of t r
-  | _ => None
-  end.
+Definition adjacent (tbl : list row) (r n : row) : Prop := exists l1 l2, tbl = (l1 ++ r :: n :: l2)%list.
+Definition last_row (tbl : list row) : row := last tbl dummy_row.
 
 (* well-formedness of the table (computed on the regenerated table) *)
 Fixpoint chain_ok (prev_end : Q) (l : list row) : bool :=
